@@ -47,6 +47,14 @@ class Hold:
         return False
 
 
+def _drive(coro):
+    try:
+        coro.send(None)
+    except StopIteration as ex:
+        return ex.value
+    raise RuntimeError("harness: the coroutine suspended")
+
+
 class World:
     def __init__(self):
         self.plain = {i: SM(i) for i in range(1, N + 1)}
@@ -57,7 +65,12 @@ class World:
         ns = {"contextlib": contextlib, "HOLD": self.hold}
         for i in range(1, N + 1):
             for pre in ("g", "h"):
-                exec("@contextlib.contextmanager\ndef %s%d():\n    with HOLD[%d]:\n        yield %d\n" % (pre, i, i, i), ns)
+                if i % 2:
+                    exec("@contextlib.contextmanager\ndef %s%d():\n    with HOLD[%d]:\n        yield %d\n" % (pre, i, i, i), ns)
+                else:
+                    # even ids: made by @asynccontextmanager -- yet reached (through unwrap results) from a context whose
+                    # with statement is synchronous: the flavour of a replacement manager is its own
+                    exec("@contextlib.asynccontextmanager\nasync def %s%d():\n    with HOLD[%d]:\n        yield %d\n" % (pre, i, i, i), ns)
             self.gcm_fn[i] = ns["g%d" % i]
             self.gcm_unreg_fn[i] = ns["h%d" % i]
             stackscope.unwrap_context_generator.register(ns["g%d" % i])(self.make_ucg(i))
@@ -86,7 +99,10 @@ class World:
         if i not in self.live:
             fn = self.gcm_unreg_fn[i] if case["U"][i - 1] == "unreg" else self.gcm_fn[i]
             cm = fn()
-            cm.__enter__()
+            if hasattr(cm, "__aenter__"):
+                _drive(cm.__aenter__())
+            else:
+                cm.__enter__()
             self.live[i] = cm
         return self.live[i]
 
@@ -101,7 +117,10 @@ class World:
     def cleanup(self):
         for cm in self.live.values():
             try:
-                cm.__exit__(None, None, None)
+                if hasattr(cm, "__aexit__"):
+                    _drive(cm.__aexit__(None, None, None))
+                else:
+                    cm.__exit__(None, None, None)
             except BaseException:
                 pass
         self.live = {}
